@@ -142,3 +142,7 @@ PROPS["C13"]["apalache"] = [dict(spec="apalache/SignedLemmas256.tla", inv="Inv")
                             dict(spec="apalache/SignedLemmas256.tla", inv="AddWrongRule", expect_error=True)]
 PROPS["C06"]["apalache"] = [dict(spec="apalache/SignedLemmas256.tla", inv="CmpOK"),
                             dict(spec="apalache/SignedLemmas256.tla", inv="RawLtWrong", expect_error=True)]
+PROPS["C07"]["tlaps"] = [dict(spec="proofs/ModArithProofs.tla")]
+PROPS["C08"]["tlaps"] = [dict(spec="proofs/ModArithProofs.tla")]
+PROPS["C13"]["tlaps"] = [dict(spec="proofs/SignedProofs.tla")]
+PROPS["C06"]["tlaps"] = [dict(spec="proofs/SignedProofs.tla")]
